@@ -159,7 +159,16 @@ def run_case(case, ctx):
             try:
                 A = so.make_bloom(ctx, ka, est, fpr, h1, "a")
                 objs.append(A)
-                B = so.make_bloom(ctx, kb, est2, fpr2, h2, "b")
+                if rel == "hash" and ka == "ondisk" and not counting and case["foreign"] % 3 == 1:
+                    # the other strategy on a SECOND HANDLE of the very same backing file: same bits, another hash function - still
+                    # incompatible operands
+                    from probables import BloomFilterOnDisk
+                    B = BloomFilterOnDisk(so.PATHS[id(A)], hash_function=so._hf(ctx, h2))
+                    so.PATHS[id(B)] = so.PATHS[id(A)]
+                    kb = "ondisk"
+                    ctx.feat("second_handle_with_another_hash_function")
+                else:
+                    B = so.make_bloom(ctx, kb, est2, fpr2, h2, "b")
                 objs.append(B)
             except Exception as e:  # noqa
                 from vlib.core import innermost_is_library
